@@ -141,6 +141,13 @@ impl<'a> Visitor for TwinVis<'a> {
             }
             // leader share: blind identical; measurement share difference = encoding difference
             let regions = ad.layout(Kind::Input, 0, 0, &Vec::new());
+            // the leader's share must have the layout the instance declares (measurement share, proof shares, blind):
+            // a share of another length cannot hold the encoding under a mask
+            let want_len: usize = regions.iter().map(|r| r.off + r.len).max().unwrap_or(0);
+            if i1[0].len() != want_len || i2[0].len() != want_len {
+                ctx.fail(Violation::new("C17.mask", format!("prio3|leader_share_length|{}", p.inst.class), format!("the leader's input share has {} / {} bytes for the two measurements, the instance's layout has {want_len} ({} aggregators)", i1[0].len(), i2[0].len(), n)));
+                return Ok(ctx.finish());
+            }
             let modulus = model::modulus(&p.inst);
             let e1 = model::encode_raw(&p.inst, &p.m1).ok_or("no encoder")?;
             let e2 = model::encode_raw(&p.inst, &p.m2).ok_or("no encoder")?;
